@@ -15,7 +15,7 @@ EXTENDS Integers, Sequences, TLC, Json
 
 CONSTANT WorldFile
 W == JsonDeserialize(WorldFile)
-INSTANCE Peg WITH G <- W.grammar
+INSTANCE Peg WITH G <- W.grammar, Checked <- W.checked
 
 VARIABLES inp, k, seed      \* seed: index of a prefabricated input (0 = built from tokens)
 vars == <<inp, k, seed>>
